@@ -70,3 +70,9 @@ Definition value_nan_free (v : value) : bool :=
   match v with VFloats l => forallb (fun b => negb (f64_is_nan b)) l | _ => true end.
 Definition value_regular (v : value) : bool :=
   match v with VFloats l => forallb f64_regular l | _ => true end.
+
+(** Go's == on [N]float64 identifies +0 and -0: the representative with the sign of zeros erased. *)
+Definition canonz_f (b : N) : N := if f64_is_zero b then 0 else b.
+Definition canonz (v : value) : value :=
+  match v with VFloats l => VFloats (map canonz_f l) | _ => v end.
+Definition canonz_kv (x : kv) : kv := (fst x, canonz (snd x)).
